@@ -302,6 +302,19 @@ def plain_classes():
         def __repr__(self):
             return "TupleNode(%r)" % (self.name,)
 
+    class DataNode(UserNode):
+        """Application data under attribute names that merely LOOK like bookkeeping (single underscore, other spellings):
+        they are the user's and have nothing to do with the tree."""
+
+        def __init__(self, name):
+            self.name = name
+            self._parent = "record-17"
+            self._children = 5
+            self._root = None
+            self.parent_ = self
+            self.__dict__["__parent"] = 0
+            self.__dict__["__children"] = ("x",)
+
     class Tuple0(tuple, NodeMixin):
         """The empty record: additionally falsy."""
 
@@ -315,7 +328,7 @@ def plain_classes():
             return "Tuple0(%r)" % (self.name,)
 
     _PLAIN.update(node=Node, anynode=AnyNode, user=UserNode, light=UserLight, weird=Weird, eqhash=EqHash, falsy=Falsy,
-                  falsylight=FalsyLight, norepr=NoRepr, container=Container, tuplenode=TupleNode, tuple0=Tuple0)
+                  falsylight=FalsyLight, norepr=NoRepr, container=Container, tuplenode=TupleNode, tuple0=Tuple0, datanode=DataNode)
     return _PLAIN
 
 
